@@ -5,6 +5,7 @@ mod foreign;
 mod gen;
 mod pval;
 mod sstr;
+mod xmlcase;
 
 use std::io::{BufWriter, Write};
 
@@ -55,6 +56,21 @@ fn main() {
         "foreign-bin" => {
             let stdin = std::io::stdin();
             foreign::run(&mut stdin.lock(), &mut out);
+        }
+        "xml-foreign" => {
+            let stdin = std::io::stdin();
+            xmlcase::run_foreign(&mut stdin.lock(), &mut out);
+        }
+        "xml-cases" => {
+            let seed: u64 = arg(&args, "--seed", "1").parse().unwrap();
+            let count: usize = arg(&args, "--count", "50").parse().unwrap();
+            let maxi: usize = arg(&args, "--max-instances", "6").parse().unwrap();
+            let mode = arg(&args, "--mode", "mixed");
+            if mode == "probe-content-object" {
+                xmlcase::run_probe_content_object(&mut out);
+            } else {
+                xmlcase::run_random(seed, count, maxi, &mode, &mut out);
+            }
         }
         "export-db" => {
             db::export(rbx_reflection_database::get(), &mut out);
